@@ -355,6 +355,16 @@ Section Prims.
                    end
       | _ => stuck f s
       end
+    (* ---- the address of the static DEFAULT_U8: the never-allocated handle ---- *)
+    else if is "as::<*constu8>" || is "as::<*mutu8>" then
+      match args with
+      | [x] => match ctor_is "DEFAULT_U8" x, ctor_is "SentinelPtr" x with
+               | Some [], _ => k (handle_val Sentinel) s
+               | _, Some [] => k x s
+               | _, _ => stuck f s
+               end
+      | _ => stuck f s
+      end
     (* ---- range arguments: VCtor "Range" [start bound; end bound], bounds as core::ops::Bound ---- *)
     else if is ".start_bound" || is ".end_bound" then
       match args with
